@@ -716,7 +716,7 @@ theorem mergeContainers_generated_eq_model (o : ListStrategy) (f : List Node →
     (c1 c2 : AMap Node)
     (hf : ∀ a b, (Node.list a).WF → (Node.list b).WF → Node.sizeList b < Node.sizeKvs c2 → f a b = .ok (mergeList o a b))
     (h1 : (Node.cont c1).WF) (h2 : (Node.cont c2).WF) :
-    FuncsDom.mergeContainers f c1 c2 = .ok (mergeKvs o c1 c2) :=
+    FuncsDom.mergeContainers f c1 (some c2) = .ok (mergeKvs o c1 c2) :=
   FuncsDomMerge.mergeContainers_generated_eq_model o f c1 c2 hf h1 h2
 
 /-- merger.mergeListsMeld, likewise -/
@@ -729,13 +729,13 @@ theorem mergeListsMeld_generated_eq_model (o : ListStrategy) (f : List Node → 
 
 /-- `Merge(other, ListsMergeAppend())`: the field is the translated `mergeListsAppend` -/
 theorem merge_append_generated_eq_model (c1 c2 : AMap Node) (h1 : (Node.cont c1).WF) (h2 : (Node.cont c2).WF) :
-    FuncsDom.mergeContainers FuncsDom.mergeListsAppend c1 c2 = .ok (mergeC .append c1 c2) :=
+    FuncsDom.mergeContainers FuncsDom.mergeListsAppend c1 (some c2) = .ok (mergeC .append c1 c2) :=
   FuncsDomMerge.mergeContainers_generated_eq_model .append _ c1 c2 (FuncsDomMerge.listFnOk_append _) h1 h2
 
 /-- `Merge(other)` with the default option: the field is the translated `mergeListsMeld` of the same merger
     (`meldKnot`: that self-reference, unrolled as often as `c2` is deep) -/
 theorem merge_meld_generated_eq_model (c1 c2 : AMap Node) (h1 : (Node.cont c1).WF) (h2 : (Node.cont c2).WF) :
-    FuncsDom.mergeContainers (FuncsDomMerge.meldKnot (Node.sizeKvs c2)) c1 c2 = .ok (mergeC .meld c1 c2) :=
+    FuncsDom.mergeContainers (FuncsDomMerge.meldKnot (Node.sizeKvs c2)) c1 (some c2) = .ok (mergeC .meld c1 c2) :=
   FuncsDomMerge.mergeContainers_generated_eq_model .meld _ c1 c2 (FuncsDomMerge.listFnOk_meld _) h1 h2
 
 /-- the translated code, RUN on a document with nested containers, lists of different lengths, a null that
@@ -743,10 +743,10 @@ theorem merge_meld_generated_eq_model (c1 c2 : AMap Node) (h1 : (Node.cont c1).W
 theorem nonvacuous_merge_generated :
     FuncsDom.mergeContainers (FuncsDomMerge.meldKnot 20)
         [("a", .cont [("x", i 1)]), ("l", .list [i 1, .cont [("p", i 1)]]), ("n", i 5), ("z", i 0)]
-        [("a", .cont [("y", i 2)]), ("l", .list [Node.null, .cont [("q", i 2)], i 3]), ("n", Node.null), ("z", .list [])]
+        (some [("a", .cont [("y", i 2)]), ("l", .list [Node.null, .cont [("q", i 2)], i 3]), ("n", Node.null), ("z", .list [])])
       = .ok [("a", .cont [("x", i 1), ("y", i 2)]), ("l", .list [i 1, .cont [("p", i 1), ("q", i 2)], i 3]),
              ("n", i 5), ("z", .list [])] ∧
-    FuncsDom.mergeContainers FuncsDom.mergeListsAppend [("l", .list [i 1])] [("l", .list [i 2])]
+    FuncsDom.mergeContainers FuncsDom.mergeListsAppend [("l", .list [i 1])] (some [("l", .list [i 2])])
       = .ok [("l", .list [i 1, i 2])] := by
   decide
 
